@@ -8,7 +8,9 @@ Model/BM.lean — executable model of
   function `LfsrLength` (size check, `int.to_bytes`, C++ result).  The value computed by the
   C++ code is *modelled by the same loop* (`bmLength`): the two C++ variants (portable, CLMUL)
   have their own word-level model in Model/BMCpp.lean, PROVED to return `lfsrLengthStr` below
-  (`C14Cpp.cpp_matches_wrapper_model`);
+  (`C14Cpp.cpp_matches_wrapper_model`), and the wrapper executed statement by statement over that
+  word-level model (`to_bytes`, pybind11 `int`, `LfsrLengthStr`: `BMCpp.linearComplexityCpp`) is
+  PROVED equal to `linearComplexity` on every input (`C14Wrapper.wrapper_glue`);
 * `lfsrCount`, `lfsrLogProbability` mirror `LfsrCount`, `LfsrLogProbability`.
 
 No Mathlib (links into the native driver).  `Nat` bit operations are GMP-backed natively and
